@@ -541,3 +541,15 @@ pub fn mint_all(live: &mut Live, users: &[String]) {
 pub fn reg_of(live: &Live) -> Vec<(String, CDataS)> {
     live.state().reg
 }
+
+/// a well-formed bech32 address of ANOTHER chain (prefix `hrp`): not valid for the default MockApi
+pub fn foreign_address(hrp: &str, name: &str) -> String {
+    use sha2::{Digest, Sha256};
+    let h = Sha256::digest(name.as_bytes()).to_vec();
+    bech32::encode::<bech32::Bech32>(bech32::Hrp::parse(hrp).unwrap(), &h).unwrap()
+}
+/// sender strings that the chain's Api cannot validate / canonicalize: a plain name, a foreign-prefix address,
+/// an upper-cased copy of a real address, the empty string (App::execute takes any Addr)
+pub fn invalid_senders(real: &str) -> Vec<String> {
+    vec!["mallory".to_string(), foreign_address("juno", "mallory"), real.to_uppercase(), String::new()]
+}
